@@ -201,10 +201,12 @@ class Result:
             self.samples.append(s)
 
     def violation(self, sig, what, case):
-        if len(self.violations) < 200:
+        # at most 5 witnesses per signature, so that many instances of one (possibly known) finding never crowd out another one
+        n = sum(1 for v in self.violations if v["sig"] == sig)
+        if n < 5 and len(self.violations) < 1000:
             self.violations.append({"sig": sig, "what": what, "case": case})
         else:
-            self.extra["violations_truncated"] = True
+            self.extra["violation_witnesses_dropped"] = self.extra.get("violation_witnesses_dropped", 0) + 1
 
     def merge(self, other):
         """Merge a shard result (dict produced by shard_dict)."""
@@ -322,7 +324,7 @@ class Shard:
             self.samples.append(s)
 
     def violation(self, sig, what, case):
-        if len(self.violations) < 20:
+        if sum(1 for v in self.violations if v["sig"] == sig) < 3 and len(self.violations) < 200:
             self.violations.append({"sig": sig, "what": what, "case": case})
 
     def dict(self):
